@@ -98,7 +98,7 @@ macro_rules! backend_cases2 {
                             bytes_of_i64(r.data().raw())
                         })
                     }
-                    "glwe_external_product" | "glwe_external_product_assign" | "ggsw_encrypt_sk" => {
+                    "glwe_external_product" | "glwe_external_product_assign" | "ggsw_encrypt_sk" | "cmux" => {
                         let ggsw_infos = EncryptionLayout::new_from_default_sigma(GGSWLayout {
                             n: Degree(n as u32),
                             base2k: Base2K(kb2k as u32),
@@ -144,6 +144,16 @@ macro_rules! backend_cases2 {
                         );
                         let mut gp: GGSWPrepared<DeviceBuf<BE>, BE> = module.ggsw_prepared_alloc_from_infos(&g);
                         module.ggsw_prepare(&mut gp, &g, big_scratch().borrow());
+                        if op == "cmux" {
+                            use poulpy_bin_fhe::bdd_arithmetic::Cmux;
+                            let t = rand_glwe(n, b2k, size, rank, 5);
+                            let f = rand_glwe(n, b2k, size, rank, 6);
+                            finish!(tb, |s: &mut Scratch<BE>| {
+                                let mut r = rand_glwe(n, b2k, size, rank, 7);
+                                module.cmux(&mut r, &t, &f, &gp, s);
+                                bytes_of_i64(r.data().raw())
+                            })
+                        }
                         if op == "glwe_external_product" {
                             let a = rand_glwe(n, ab2k, asize, arank, 5);
                             let res_infos = glwe_layout(n, b2k, size, rank);
@@ -159,6 +169,42 @@ macro_rules! backend_cases2 {
                             let mut r = a.clone();
                             module.glwe_external_product_assign(&mut r, &gp, s);
                             bytes_of_i64(r.data().raw())
+                        })
+                    }
+                    "execute_bdd" => {
+                        use crate::cmd_bddeval::{DynCircuit, Two};
+                        use poulpy_bin_fhe::bdd_arithmetic::{ExecuteBDDCircuit, FheUintPrepared, GetBitCircuitInfo, verif_hooks::u32_circuits};
+                        let threads = kv.g("threads");
+                        let ggsw_infos = EncryptionLayout::new_from_default_sigma(GGSWLayout {
+                            n: Degree(n as u32),
+                            base2k: Base2K(kb2k as u32),
+                            k: TorusPrecision((kb2k * ksize) as u32),
+                            rank: Rank(krout as u32),
+                            dnum: Dnum(dnum as u32),
+                            dsize: Dsize(dsize as u32),
+                        })
+                        .unwrap();
+                        let (_, skp) = mk_sk(krout, 1);
+                        let circuits = u32_circuits();
+                        let (_, c) = circuits.iter().find(|(nm, _)| *nm == kv.s("circ"))?;
+                        let circ = DynCircuit(*c);
+                        if circ.max_state_size() != kv.g("state") {
+                            return Some(format!("state-mismatch:{}", circ.max_state_size()));
+                        }
+                        let mut ap = FheUintPrepared::<DeviceBuf<BE>, u32, BE>::alloc_from_infos(&module, &ggsw_infos.layout);
+                        let mut bp = FheUintPrepared::<DeviceBuf<BE>, u32, BE>::alloc_from_infos(&module, &ggsw_infos.layout);
+                        ap.encrypt_sk(&module, 0x1234_5678, &skp, &ggsw_infos, &mut Source::new([3u8; 32]), &mut Source::new([4u8; 32]), big_scratch().borrow());
+                        bp.encrypt_sk(&module, 0x0fed_cba9, &skp, &ggsw_infos, &mut Source::new([5u8; 32]), &mut Source::new([6u8; 32]), big_scratch().borrow());
+                        let helper = Two { a: &ap, b: &bp };
+                        let res_infos = glwe_layout(n, b2k, size, rank);
+                        finish!(tb, |s: &mut Scratch<BE>| {
+                            let mut outs: Vec<GLWE<Vec<u8>>> = (0..32).map(|_| GLWE::alloc_from_infos(&res_infos)).collect();
+                            module.execute_bdd_circuit_multi_thread(threads, &mut outs, &helper, &circ, s);
+                            let mut o = Vec::new();
+                            for x in outs.iter() {
+                                o.extend(bytes_of_i64(x.data().raw()));
+                            }
+                            o
                         })
                     }
                     "gglwe_encrypt_sk" => {
